@@ -8,7 +8,7 @@ use vstd::std_specs::cmp::{PartialEqSpec, PartialOrdSpec, OrdSpec};
 use crate::spec::*;
 use crate::stdx5::*;
 use crate::num::rational::BigRational;
-use crate::identifier::{id_cmp, node_ok, c14_identifier_obeys_cmp};
+use crate::identifier::{id_cmp, id_order, node_ok, c14_identifier_obeys_cmp};
 use crate::{CmRDT, Dot, Identifier, OrdDot, VClock};
 verus! {
 
@@ -94,9 +94,7 @@ impl<T, A: Ord> Default for List<T, A> {
 
 /// s enumerates the keys of m in increasing identifier order (the sequence a replica shows)
 pub open spec fn is_order<A: Ord, T>(s: Seq<Id<A>>, m: SMap<Id<A>, T>) -> bool {
-    &&& s.no_duplicates()
-    &&& s.to_set() == m.dom()
-    &&& forall|i: int, j: int| 0 <= i < j < s.len() ==> id_cmp((#[trigger] s[i])@, (#[trigger] s[j])@) == Ordering::Less
+    id_order(s, m.dom())
 }
 
 /// exact effect of List::apply (C12): an op whose dot was already seen is ignored; an insert adds its identifier unless
